@@ -163,9 +163,14 @@ pub struct RecvEngine {
     hist: HashMap<u128, Hist>,
     sh: Shadow,
     max_xml: usize,
-    /// an allocation oracle already fired in this case (reported once per case)
-    heap_reported: bool,
+    /// allocation-oracle classes already reported in this case (each class once per case)
+    heap_reported: std::collections::HashSet<String>,
     heap17_reported: bool,
+    /// payload bytes received so far per key (TOI, or FDT instance)
+    rx_bytes: HashMap<u128, i64>,
+    /// the `cfg` op of the current case (handed to the child process of `iso`)
+    cfg_line: String,
+    iso_n: u32,
     cur_encoded: bool,
     /// bytes that the FTIs announced so far in this case explain (first two source blocks of any
     /// announced size, per-symbol tables, pre-allocated block tables): see findings recv-1 / D31
@@ -211,14 +216,17 @@ fn drain(log: &Log) -> Vec<(u128, String)> {
 }
 
 fn panic_class(loc: &str) -> String {
-    let file = loc.split(':').next().unwrap_or("?");
+    // `file:line` of the panic site (path stripped to the basename: registry paths differ between machines)
+    let mut it = loc.split(':');
+    let file = it.next().unwrap_or("?");
+    let line = it.next().unwrap_or("?");
     let base = file.rsplit('/').next().unwrap_or(file);
-    format!("C04:panic@{}", base)
+    format!("C04:panic@{}:{}", base, line)
 }
 
 impl RecvEngine {
     pub fn new() -> RecvEngine {
-        RecvEngine { rx: None, rx0: None, cfg: Cfg::default(), dead: false, hist: HashMap::new(), sh: Shadow::default(), max_xml: 0, heap_reported: false, heap17_reported: false, cur_encoded: false, ann: HashMap::new(), grown_toi0: 0, cur_key: 0, cur_is_toi0: false }
+        RecvEngine { rx: None, rx0: None, cfg: Cfg::default(), dead: false, hist: HashMap::new(), sh: Shadow::default(), max_xml: 0, heap_reported: Default::default(), heap17_reported: false, rx_bytes: HashMap::new(), cfg_line: String::new(), iso_n: 0, cur_encoded: false, ann: HashMap::new(), grown_toi0: 0, cur_key: 0, cur_is_toi0: false }
     }
 
     fn drop_rx(&mut self) {
@@ -235,6 +243,7 @@ impl RecvEngine {
         let t0 = std::time::Instant::now();
         if count {
             LIVE_BEFORE.with(|c| c.set(alloc::live()));
+            alloc::mark();
         }
         alloc::enter();
         let was = alloc::resume(count);
@@ -267,33 +276,48 @@ impl RecvEngine {
         //                     source blocks of any size + per-symbol tables: finding recv-1 / D31)
         //   :unexplained      anything else
         let live = alloc::live();
-        let grown = live - LIVE_BEFORE.with(|c| c.get());
+        let before = LIVE_BEFORE.with(|c| c.get());
+        let grown = live - before;
+        // what the call held at its worst moment (a transient copy counts: it has to fit in memory)
+        let peak = (alloc::peak() - before).max(grown);
         if self.cur_is_toi0 {
             self.grown_toi0 += grown.max(0);
         }
         let (ann_blocks, ann_table) = self.ann.get(&self.cur_key).copied().unwrap_or((0, 0));
+        let got = self.rx_bytes.get(&self.cur_key).copied().unwrap_or(0);
         let call_bound = 2 * 1024 * 1024 + self.cfg.max_cache as i64;
-        if grown > call_bound && !self.heap_reported {
-            self.heap_reported = true;
-            // TOI 0: the FDT document itself has no size limit at all (finding recv-2): parsing / cloning a
-            // document of the announced size, or inflating a content-encoded one
-            let cls = if self.cur_is_toi0 && grown <= call_bound + 64 * self.sh.max_len() as i64 {
+        if peak > call_bound {
+            // Every class has an EXPLICIT upper bound; beyond it the excess is `:unexplained` (a violation).
+            //   :fdt-document    TOI 0, not content-encoded: <= 64 x the payload bytes RECEIVED for this instance
+            //   :fdt-inflated    TOI 0 with EXT_CENC: <= 8 x 1032 x the payload bytes received for this instance
+            //                    (1032:1 is the best deflate ratio; 8 copies: inflate buffer growth, UTF-8 copy,
+            //                    parsed FdtInstance, clone)
+            //   :announced-block <= 4 x (first two source blocks + per-symbol tables + block table that the
+            //                    EXT_FTI of this TOI announces), the announcement itself being limited by the
+            //                    codes' K maxima (No-Code 65536 since ee3ccfa) times the 16-bit symbol length
+            let cls = if self.cur_is_toi0 && !self.cur_encoded && peak <= call_bound + 64 * got.min(self.sh.max_len() as i64) {
                 "C04:alloc-per-call:fdt-document"
-            } else if self.cur_is_toi0 && self.cur_encoded {
+            } else if self.cur_is_toi0 && self.cur_encoded && peak <= call_bound + 8 * 1032 * got {
                 "C04:alloc-per-call:fdt-inflated"
-            } else if !self.cur_is_toi0 && grown <= call_bound + 4 * (ann_blocks + ann_table) {
+            } else if peak <= call_bound + 4 * (ann_blocks + ann_table) {
                 "C04:alloc-per-call:announced-block"
             } else {
                 "C04:alloc-per-call:unexplained"
             };
-            o.fail(
-                cls,
-                &format!("{} allocated {} B in one call (bound {} B = 2 MiB + object_max_cache_size {}; announced by the FTI of this TOI: blocks+symbol tables {} B, block table {} B)", what, grown, call_bound, self.cfg.max_cache, ann_blocks, ann_table),
-            );
+            if self.heap_reported.insert(cls.to_string()) {
+                o.fail(
+                    cls,
+                    &format!("{} held up to {} B during one call, {} B afterwards (bound {} B = 2 MiB + object_max_cache_size {}; payload bytes received for this TOI / FDT instance: {}; announced by its EXT_FTI: blocks+symbol tables {} B, block table {} B)", what, peak, grown, call_bound, self.cfg.max_cache, got, ann_blocks, ann_table),
+                );
+            }
         }
         if dt > Duration::from_secs(2) {
-            let cls = if ann_blocks + ann_table >= 64 * 1024 * 1024 { "C04:slow-call:announced-block" } else { "C04:slow-call:unexplained" };
-            o.fail(cls, &format!("{} took {:?} (announced by the FTI of this TOI: {} B)", what, dt, ann_blocks + ann_table));
+            // explicit bound of the explained class: 2 s + 1 s per 64 MiB announced
+            let ann = ann_blocks + ann_table;
+            let cls = if ann >= 64 * 1024 * 1024 && dt <= Duration::from_secs(2 + (ann / (64 * 1024 * 1024)) as u64) { "C04:slow-call:announced-block" } else { "C04:slow-call:unexplained" };
+            if self.heap_reported.insert(cls.to_string()) {
+                o.fail(cls, &format!("{} took {:?} (announced by the FTI of this TOI: {} B)", what, dt, ann));
+            }
         }
         // ---- C17: live heap against the configured limits (generous slack; measured, not modelled)
         let unfinished = self.sh.unfinished() as i64;
@@ -367,6 +391,7 @@ impl RecvEngine {
                 self.cur_is_toi0 = i.toi == 0;
                 self.cur_encoded = i.encoded;
                 self.cur_key = if i.toi == 0 { u128::MAX - i.fdt_id.unwrap_or(0) as u128 } else { i.toi };
+                *self.rx_bytes.entry(self.cur_key).or_insert(0) += i.payload.len() as i64;
                 if let Some((_, e, b, l)) = i.fti {
                     let (e, b, l) = (e.max(1) as i128, b.max(1) as i128, l as i128);
                     let t = (l + e - 1) / e;
@@ -433,8 +458,9 @@ impl Engine for RecvEngine {
         self.hist.clear();
         self.sh = Shadow::default();
         self.max_xml = 0;
-        self.heap_reported = false;
+        self.heap_reported.clear();
         self.heap17_reported = false;
+        self.rx_bytes.clear();
         self.cur_encoded = false;
         self.ann.clear();
         self.grown_toi0 = 0;
@@ -464,6 +490,7 @@ impl Engine for RecvEngine {
                     fast: t[10].parse().unwrap_or(0),
                 };
                 self.cfg = c;
+                self.cfg_line = op.to_string();
                 self.sh = Shadow { once: c.once, obj_to: c.obj_to, ..Default::default() };
                 alloc::reset();
                 self.rx = Some(make_rx(&c, true));
@@ -481,6 +508,21 @@ impl Engine for RecvEngine {
                     Some(b) => b,
                     None => return "bad-op".into(),
                 };
+                // an opaque datagram whose EXT_FTI announces more than 1 GiB of symbol table / first block goes
+                // to a fresh receiver in a child process instead (see `iso`): on a tree without the K limits of
+                // BlockDecoder::init it would take the engine down (allocator fuse, or abort)
+                if t[1] == "fz" && !self.dead && self.rx.is_some() && std::env::var("RECV_CHILD").is_err() {
+                    if let Ok(Ok(i)) = guarded(|| parse_info(&bytes)) {
+                        if let Some((_, e, b, l)) = i.fti {
+                            let (e, b, l) = (e.max(1) as u128, b.max(1) as u128, l as u128);
+                            let k = ((l + e - 1) / e).min(b);
+                            if k * 48 + l.min(k * e) > 1 << 30 {
+                                let line = format!("recv iso {} {}", now, t[3]);
+                                return self.exec(&line, o);
+                            }
+                        }
+                    }
+                }
                 let before = if t[1] == "rej" { self.rx.as_ref().map(|r| (r.r.nb_objects(), r.r.nb_objects_error())) } else { None };
                 let obs = self.push(&bytes, now, o, t[1] == "fz");
                 // ---- C04: a rejected packet leaves the receiver as it was
@@ -490,6 +532,89 @@ impl Engine for RecvEngine {
                     }
                 }
                 obs
+            }
+            "iso" if t.len() >= 4 => {
+                // The datagrams (comma separated) go to a FRESH receiver with the configuration of this case
+                // in a CHILD PROCESS: an allocation failure aborts, an over-sized request trips the
+                // allocator fuse (exit 103), a hang is killed - none of which the engine itself survives.
+                // The child is this binary in replay mode, so every oracle of `push_data` applies.
+                if std::env::var("RECV_CHILD").is_ok() {
+                    // never from a child (a child that spawned children would never end)
+                    return "fz".into();
+                }
+                self.iso_n += 1;
+                let dir = std::env::temp_dir().join(format!("recv-iso-{}-{}", std::process::id(), self.iso_n));
+                let _ = std::fs::create_dir_all(&dir);
+                let ops = dir.join("iso.ops");
+                let now: i64 = t[2].parse().unwrap_or(0);
+                let mut text = format!("case iso\n{}\n", self.cfg_line);
+                for (i, h) in t[3].split(',').enumerate() {
+                    text.push_str(&format!("recv fz {} {}\n", now + i as i64, h));
+                }
+                text.push_str(&format!("recv fzc {}\n", now + 1_000_000));
+                let _ = std::fs::write(&ops, text);
+                let exe = std::env::current_exe().unwrap();
+                let child = std::process::Command::new(exe)
+                    .arg("exec")
+                    .arg(&ops)
+                    .arg(&dir)
+                    .env("VERIF_OP_TIMEOUT", "60")
+                    .env("RECV_CHILD", "1")
+                    .stdout(std::process::Stdio::null())
+                    .stderr(std::process::Stdio::piped())
+                    .spawn();
+                let verdict = match child {
+                    Err(e) => format!("spawn failed: {}", e),
+                    Ok(mut ch) => {
+                        let t0 = std::time::Instant::now();
+                        let status = loop {
+                            match ch.try_wait() {
+                                Ok(Some(st)) => break Some(st),
+                                Ok(None) if t0.elapsed() > Duration::from_secs(90) => {
+                                    let _ = ch.kill();
+                                    let _ = ch.wait();
+                                    break None;
+                                }
+                                Ok(None) => std::thread::sleep(Duration::from_millis(5)),
+                                Err(_) => break None,
+                            }
+                        };
+                        let mut err = String::new();
+                        if let Some(mut e) = ch.stderr.take() {
+                            use std::io::Read;
+                            let _ = e.read_to_string(&mut err);
+                        }
+                        let err = err.replace('\n', " ");
+                        if let Ok(txt) = std::fs::read_to_string(dir.join("recv.oracle")) {
+                            for l in txt.lines() {
+                                let f: Vec<&str> = l.split('\t').collect();
+                                if f.len() >= 4 && f[0] == "FAIL" {
+                                    o.fail(f[1], &format!("[child process] {}", f[3]));
+                                }
+                            }
+                        }
+                        match status.map(|s| (s.code(), s)) {
+                            Some((Some(0), _)) => "ok".to_string(),
+                            Some((Some(103), _)) => {
+                                o.fail("C04:alloc-per-call:unexplained", &format!("allocator fuse: {}", err));
+                                "fuse".to_string()
+                            }
+                            Some((Some(3), _)) | None => {
+                                o.fail("C04:hang", &format!("child did not finish: {}", err));
+                                "hang".to_string()
+                            }
+                            Some((code, st)) => {
+                                o.fail("C04:process-abort", &format!("child ended with {:?} ({}): {}", code, st, err));
+                                "abort".to_string()
+                            }
+                        }
+                    }
+                };
+                let _ = std::fs::remove_dir_all(&dir);
+                if std::env::var("RECV_DUMP").is_ok() {
+                    eprintln!("iso: {}", verdict);
+                }
+                "fz".into()
             }
             "mr" if t.len() >= 3 => {
                 // C17 last clause at the MultiReceiver: idle sessions (session time-out 1 ms, NO object
@@ -676,11 +801,14 @@ pub fn unhex(s: &str) -> Option<Vec<u8>> {
 }
 
 fn main() {
+    if let Some(mb) = std::env::var("RECV_FUSE_MB").ok().and_then(|x| x.parse::<i64>().ok()) {
+        alloc::set_fuse(mb << 20);
+    }
     // watchdog: a receiver call that never returns is turned into a crash of the engine (reported by ./check)
     std::thread::spawn(|| loop {
         std::thread::sleep(Duration::from_secs(5));
-        if alloc::stuck_for_secs() > 60 {
-            eprintln!("TIMEOUT: a receiver call did not return within 60 s (C04 hang)");
+        if alloc::stuck_for_secs() > 200 {
+            eprintln!("TIMEOUT: a receiver call did not return within 200 s (C04 hang; the core watchdog should have fired at 120 s)");
             std::process::exit(101);
         }
     });
